@@ -1,11 +1,28 @@
-(* C03: the typed-attribute layer (Model/Defs.v): gen_obj (attributes -> AVPs) and
-   assign (AVPs -> attributes).
-     1. gen_obj_unfold      gen_obj as a concatenation over the definition tuple
-     2. C03_gen_shape       one AVP per set scalar / element, right code, vendor, V, M, P bits
-     3. C03_roundtrip       decode (assign) of what gen_obj produced restores the attributes
-     4. C03_ede             encode-decode-encode = encode
-     5. gen_obj_errors, C03_assign_total
-     6. a concrete, non-vacuous instance
+(* C03: the typed-attribute layer (Model/Defs.v): gen_obj (attributes -> AVPs, python
+   generate_avps_from_defs) and assign (AVPs -> attributes, python assign_attr_from_defs).
+
+     gen_obj_unfold(_gen)  gen_obj = concatenation, over the definition tuple IN ORDER, of
+                           field_avps e d (assoc (f_attr d) fields), then the extras
+     C03_gen_shape         per definition: 0 / 1 / one-per-element AVPs, each with the definition's
+                           code, vendor, V iff vendor <> 0, effective M, P clear; extras last, unchanged
+     gen_obj_errors        gen_obj only fails with AvpEncodeError / ValueError / TypeError / AttributeError
+     C03_attr_denotes      a well-formed class: each attribute denotes one dictionary AVP, injectively
+     shaped, obj_equiv     the domain of the round trip, and equality of objects up to field order,
+                           None vs absent, and the kind of an empty scalar list
+     C03_roundtrip         assign (fresh instance) (gen_obj o) = Ok o' with o' equivalent to o, for every
+                           fuel from the one `shaped` holds at
+     C03_gen_total         gen_obj succeeds on every shaped object
+     C03_gen_encodable     the AVPs gen_obj produces for a shaped object are wf_avp' and encode
+     C03_restores          what obj_equiv says attribute by attribute
+     gen_obj_equiv         gen_obj respects obj_equiv;  obj_equiv_sym
+     C03_ede               encode - decode - encode = encode
+     C03_assign_total      no OutOfFuel from the fuel `shaped` holds at
+     ex_*                  a concrete instance (2 classes, 4 dictionary rows)
+
+   Class well-formedness (class_ok, plus codes and vendor ids that fit 32 bits: class_wf) is a
+   hypothesis ONLY for the classes involved: it is part of `shaped`, for the class of the object and
+   of each nested object.  `tables_ok` (every class of the table) is defined but not needed.
+
    Names are strings, so String is imported: list functions are written qualified. *)
 From DV Require Import Prelude.Base Proofs.BaseP Model.Wire Model.Types Model.Defs
      Proofs.WireP Proofs.TypesP Proofs.FindP.
@@ -804,3 +821,796 @@ Qed.
 
 Lemma shaped_mono e fuel fuel' o : (fuel <= fuel')%nat -> shaped e fuel o -> shaped e fuel' o.
 Proof. intros Hle H. induction Hle; [exact H|apply shaped_S; assumption]. Qed.
+
+(* ====================================================================== *)
+(* 6. round trip                                                           *)
+(* ====================================================================== *)
+Lemma wf_avp_of e d a : avp_for e d a ->
+  0 <= f_code d < 4294967296 -> 0 <= f_vendor d < 4294967296 ->
+  wf_bytes (a_payload a) -> 12 + blen (a_payload a) < 16777216 -> wf_avp' a.
+Proof.
+  intros (H1 & H2 & H3 & _ & _ & H6) Hc Hv Hp Hl. unfold wf_avp', avp_length. rewrite H1, H2.
+  split; [exact Hc|]. split; [exact H6|]. split; [exact Hv|]. split; [exact H3|]. split; [exact Hp|].
+  destruct (f_vendor d =? 0); lia.
+Qed.
+
+(* o' differs from o at most in attribute n *)
+Definition others_same (n : string) (o o' : obj) : Prop :=
+  obj_cls o' = obj_cls o /\ obj_extra o' = obj_extra o /\
+  forall m, m <> n -> assoc m (obj_fields o') = assoc m (obj_fields o).
+
+Lemma others_same_refl n o : others_same n o o.
+Proof. repeat split. Qed.
+
+Lemma others_same_trans n o1 o2 o3 : others_same n o1 o2 -> others_same n o2 o3 -> others_same n o1 o3.
+Proof.
+  intros (A1 & A2 & A3) (B1 & B2 & B3). split; [congruence|]. split; [congruence|].
+  intros m Hm. rewrite (B3 m Hm). apply A3. exact Hm.
+Qed.
+
+Lemma set_field_same o n v : assoc n (obj_fields (set_field o n v)) = Some v.
+Proof. destruct o as [cl fs ex]. cbn [set_field obj_fields]. apply assoc_set_same. Qed.
+
+Lemma set_field_others o n v : others_same n o (set_field o n v).
+Proof.
+  destruct o as [cl fs ex]. unfold others_same. cbn [set_field obj_fields obj_cls obj_extra].
+  split; [reflexivity|]. split; [reflexivity|]. intros m Hm. apply assoc_set_other. exact Hm.
+Qed.
+
+Section Roundtrip.
+  Variable e : env.
+  Variable f : nat.
+  Variable c : clsdef.
+  Hypothesis Ht : e_time e = rfc_time.
+  Hypothesis Hwf : class_wf e c.
+  (* the statement for nested objects, one level of fuel down *)
+  Hypothesis IHf : forall o' sub, shaped e f o' -> gen_obj e o' = Ok sub ->
+    Forall wf_avp' sub /\
+    exists o'', assign e f (fresh (e_classes e) (obj_cls o')) sub = Ok o'' /\ obj_equiv e f o'' o'.
+
+  Lemma c_keys : key_nodup (List.map dkey (d_defs c)) = true.
+  Proof. destruct Hwf as [Hok _]. apply class_ok_inv in Hok as (_ & _ & H). exact H. Qed.
+
+  Lemma c_attrs : str_nodup (List.map f_attr (d_defs c)) = true.
+  Proof. destruct Hwf as [Hok _]. apply class_ok_inv in Hok as (_ & H & _). exact H. Qed.
+
+  Lemma c_range d : In d (d_defs c) -> 0 <= f_code d < 4294967296 /\ 0 <= f_vendor d < 4294967296.
+  Proof. destruct Hwf as [_ Hr]. rewrite Forall_forall in Hr. apply Hr. Qed.
+
+  Lemma c_def d : In d (d_defs c) -> def_ok (e_rows e) (e_classes e) d = true.
+  Proof. destruct Hwf as [Hok _]. apply class_ok_inv in Hok as (H & _ & _). apply H. Qed.
+
+  (* ---- one scalar AVP ---- *)
+  Lemma scalar_avp_facts d v a :
+    In d (d_defs c) -> f_tclass d = ""%string -> scalar_ok e d v -> new_for e d (Some v) = Ok a ->
+    a_code a = f_code d /\ a_vendor a = f_vendor d /\
+    dec_val (e_time e) (type_of (dict_of (e_rows e)) a) (a_payload a) = Ok v /\ wf_avp' a.
+  Proof.
+    intros Hd Htc (r & Hl & Hdom & Hb) Hn.
+    destruct (def_ok_inv _ _ d (c_def d Hd)) as (r' & Hl' & Hng & _).
+    rewrite Hl in Hl'. injection Hl' as <-.
+    apply new_for_inv in Hn as (r'' & Hl'' & Hfor & Hp). rewrite Hl in Hl''. injection Hl'' as <-.
+    destruct (val_roundtrip (row_ty r) v (Hng Htc) Hdom) as (p & He & Hdec & Hwp).
+    rewrite Ht in Hp. rewrite He in Hp. injection Hp as Hp.
+    pose proof Hfor as (H1 & H2 & _).
+    split; [exact H1|]. split; [exact H2|].
+    assert (Hty : type_of (dict_of (e_rows e)) a = row_ty r).
+    { unfold type_of, dict_of. rewrite H1, H2, Hl. reflexivity. }
+    split; [rewrite Hty, Ht, <- Hp; exact Hdec|].
+    destruct (c_range d Hd) as [Hc Hv].
+    apply (wf_avp_of e d a Hfor Hc Hv); rewrite <- Hp; [exact Hwp|].
+    apply Hb. rewrite Ht. exact He.
+  Qed.
+
+  Lemma step_scalar_list d v a cur l0 :
+    In d (d_defs c) -> f_tclass d = ""%string -> scalar_ok e d v -> new_for e d (Some v) = Ok a ->
+    assoc (f_attr d) (obj_fields cur) = Some (AVals l0) ->
+    assign_step e f c cur a = Ok (set_field cur (f_attr d) (AVals (l0 ++ [v])%list)).
+  Proof.
+    intros Hd Htc Hok Hn Hcur.
+    destruct (scalar_avp_facts d v a Hd Htc Hok Hn) as (H1 & H2 & Hdec & _).
+    assert (Eb : String.eqb (f_tclass d) "" = true) by (rewrite Htc; reflexivity).
+    unfold assign_step. rewrite H1, H2, (def_for_key_in _ d c_keys Hd). cbv beta iota zeta.
+    rewrite Eb, Hdec, Hcur. reflexivity.
+  Qed.
+
+  Lemma step_scalar_single d v a cur :
+    In d (d_defs c) -> f_tclass d = ""%string -> scalar_ok e d v -> new_for e d (Some v) = Ok a ->
+    is_list (assoc (f_attr d) (obj_fields cur)) = false ->
+    assign_step e f c cur a = Ok (set_field cur (f_attr d) (AVal v)).
+  Proof.
+    intros Hd Htc Hok Hn Hcur.
+    destruct (scalar_avp_facts d v a Hd Htc Hok Hn) as (H1 & H2 & Hdec & _).
+    assert (Eb : String.eqb (f_tclass d) "" = true) by (rewrite Htc; reflexivity).
+    unfold assign_step. rewrite H1, H2, (def_for_key_in _ d c_keys Hd). cbv beta iota zeta.
+    rewrite Eb, Hdec.
+    destruct (assoc (f_attr d) (obj_fields cur)) as [[| | | | |]|]; cbn [is_list] in Hcur;
+      try discriminate; reflexivity.
+  Qed.
+
+  (* ---- one grouped AVP ---- *)
+  Lemma group_avp_facts d o' a :
+    In d (d_defs c) -> f_tclass d <> ""%string -> nested_ok e (shaped e f) d o' ->
+    grouped_item e d o' = Ok a ->
+    a_code a = f_code d /\ a_vendor a = f_vendor d /\
+    type_of (dict_of (e_rows e)) a = TGrouped /\ wf_avp' a /\
+    exists sub o'', group_kids (a_payload a) = Ok sub /\
+      assign e f (fresh (e_classes e) (f_tclass d)) sub = Ok o'' /\ obj_equiv e f o'' o'.
+  Proof.
+    intros Hd Htc (Hcls & Hsh & Hb) Hg.
+    unfold grouped_item in Hg. apply bind_ok in Hg as (sub & Hsub & Hg).
+    destruct (String.eqb (f_tclass d) ""); [discriminate|].
+    destruct (IHf o' sub Hsh Hsub) as (Hwsub & o'' & Has & Heq).
+    apply grouped_for_inv in Hg as (r & a0 & p & Hl & Hty & Ha0 & Hp & ->).
+    apply new_for_inv in Ha0 as (r' & _ & Hfor & _).
+    pose proof (avp_for_set_payload e d a0 p Hfor) as Hfor'.
+    pose proof Hfor' as (H1 & H2 & _).
+    split; [exact H1|]. split; [exact H2|].
+    split. { unfold type_of, dict_of. rewrite H1, H2, Hl, Hty. reflexivity. }
+    destruct (c_range d Hd) as [Hc Hv].
+    split.
+    { apply (wf_avp_of e d _ Hfor' Hc Hv); cbn [set_payload a_payload].
+      - eapply enc_avps_wf_bytes; eassumption.
+      - eapply Hb; eassumption. }
+    exists sub, o''. cbn [set_payload a_payload].
+    split; [apply group_kids_enc; assumption|]. split; [rewrite <- Hcls; exact Has|exact Heq].
+  Qed.
+
+  Lemma step_group_list d o' a cur l0 :
+    In d (d_defs c) -> f_tclass d <> ""%string -> nested_ok e (shaped e f) d o' ->
+    grouped_item e d o' = Ok a ->
+    assoc (f_attr d) (obj_fields cur) = Some (AObjs l0) ->
+    wf_avp' a /\ exists o'', assign_step e f c cur a = Ok (set_field cur (f_attr d) (AObjs (l0 ++ [o''])%list)) /\
+                             obj_equiv e f o'' o'.
+  Proof.
+    intros Hd Htc Hok Hg Hcur.
+    destruct (group_avp_facts d o' a Hd Htc Hok Hg) as (H1 & H2 & Hty & Hwa & sub & o'' & Hk & Has & Heq).
+    split; [exact Hwa|]. exists o''. split; [|exact Heq].
+    assert (Eb : String.eqb (f_tclass d) "" = false) by (apply String.eqb_neq; exact Htc).
+    unfold assign_step. rewrite H1, H2, (def_for_key_in _ d c_keys Hd). cbv beta iota zeta.
+    rewrite Eb, Hty, Hk. cbn [bind]. rewrite Has. cbn [bind]. rewrite Hcur. reflexivity.
+  Qed.
+
+  Lemma step_group_single d o' a cur :
+    In d (d_defs c) -> f_tclass d <> ""%string -> nested_ok e (shaped e f) d o' ->
+    grouped_item e d o' = Ok a ->
+    is_list (assoc (f_attr d) (obj_fields cur)) = false ->
+    wf_avp' a /\ exists o'', assign_step e f c cur a = Ok (set_field cur (f_attr d) (AObj o'')) /\
+                             obj_equiv e f o'' o'.
+  Proof.
+    intros Hd Htc Hok Hg Hcur.
+    destruct (group_avp_facts d o' a Hd Htc Hok Hg) as (H1 & H2 & Hty & Hwa & sub & o'' & Hk & Has & Heq).
+    split; [exact Hwa|]. exists o''. split; [|exact Heq].
+    assert (Eb : String.eqb (f_tclass d) "" = false) by (apply String.eqb_neq; exact Htc).
+    unfold assign_step. rewrite H1, H2, (def_for_key_in _ d c_keys Hd). cbv beta iota zeta.
+    rewrite Eb, Hty, Hk. cbn [bind]. rewrite Has. cbn [bind].
+    destruct (assoc (f_attr d) (obj_fields cur)) as [[| | | | |]|]; cbn [is_list] in Hcur;
+      try discriminate; reflexivity.
+  Qed.
+
+  (* ---- list attributes: the append loops ---- *)
+  Lemma scalar_loop d : In d (d_defs c) -> f_tclass d = ""%string -> forall vs cur l0 here,
+    Forall (scalar_ok e d) vs -> map_result (fun v => new_for e d (Some v)) vs = Ok here ->
+    assoc (f_attr d) (obj_fields cur) = Some (AVals l0) ->
+    Forall wf_avp' here /\
+    exists cur', assign_go e f c cur here = Ok cur' /\ others_same (f_attr d) cur cur' /\
+                 assoc (f_attr d) (obj_fields cur') = Some (AVals (l0 ++ vs)%list).
+  Proof.
+    intros Hd Htc. induction vs as [|v vs IH]; intros cur l0 here Hok Hm Hcur; cbn [map_result] in Hm.
+    - injection Hm as <-. split; [constructor|]. exists cur. cbn [assign_go].
+      split; [reflexivity|]. split; [apply others_same_refl|]. rewrite app_nil_r. exact Hcur.
+    - apply bind_ok in Hm as (a & Ha & Hm). apply bind_ok in Hm as (rest & Hrest & Hm). injection Hm as <-.
+      inversion Hok as [|? ? Hv Hvs]; subst.
+      pose proof (step_scalar_list d v a cur l0 Hd Htc Hv Ha Hcur) as Hstep.
+      destruct (scalar_avp_facts d v a Hd Htc Hv Ha) as (_ & _ & _ & Hwa).
+      destruct (IH (set_field cur (f_attr d) (AVals (l0 ++ [v])%list)) (l0 ++ [v])%list rest Hvs Hrest
+                   (set_field_same _ _ _)) as (Hwr & cur' & Hgo & Hsame & Hval).
+      split; [constructor; assumption|]. exists cur'. cbn [assign_go]. rewrite Hstep. cbn [bind].
+      split; [exact Hgo|]. split.
+      + eapply others_same_trans; [apply set_field_others|exact Hsame].
+      + rewrite Hval, <- app_assoc. reflexivity.
+  Qed.
+
+  Lemma group_loop d : In d (d_defs c) -> f_tclass d <> ""%string -> forall os cur l0 here,
+    Forall (nested_ok e (shaped e f) d) os -> map_result (grouped_item e d) os = Ok here ->
+    assoc (f_attr d) (obj_fields cur) = Some (AObjs l0) ->
+    Forall wf_avp' here /\
+    exists cur' os'', assign_go e f c cur here = Ok cur' /\ others_same (f_attr d) cur cur' /\
+                      assoc (f_attr d) (obj_fields cur') = Some (AObjs (l0 ++ os'')%list) /\
+                      Forall2 (obj_equiv e f) os'' os.
+  Proof.
+    intros Hd Htc. induction os as [|o' os IH]; intros cur l0 here Hok Hm Hcur; cbn [map_result] in Hm.
+    - injection Hm as <-. split; [constructor|]. exists cur, []. cbn [assign_go].
+      split; [reflexivity|]. split; [apply others_same_refl|]. rewrite app_nil_r. split; [exact Hcur|constructor].
+    - apply bind_ok in Hm as (a & Ha & Hm). apply bind_ok in Hm as (rest & Hrest & Hm). injection Hm as <-.
+      inversion Hok as [|? ? Hv Hvs]; subst.
+      destruct (step_group_list d o' a cur l0 Hd Htc Hv Ha Hcur) as (Hwa & o'' & Hstep & Heq).
+      destruct (IH (set_field cur (f_attr d) (AObjs (l0 ++ [o''])%list)) (l0 ++ [o''])%list rest Hvs Hrest
+                   (set_field_same _ _ _)) as (Hwr & cur' & os'' & Hgo & Hsame & Hval & Hall).
+      split; [constructor; assumption|]. exists cur', (o'' :: os''). cbn [assign_go]. rewrite Hstep. cbn [bind].
+      split; [exact Hgo|]. split; [eapply others_same_trans; [apply set_field_others|exact Hsame]|].
+      split; [rewrite Hval, <- app_assoc; reflexivity|constructor; assumption].
+  Qed.
+
+  (* ---- one definition ---- *)
+  Lemma single_scalar_rt d v cur here :
+    In d (d_defs c) -> f_tclass d = ""%string -> scalar_ok e d v ->
+    field_avps e d (Some (AVal v)) = Ok here ->
+    is_list (assoc (f_attr d) (obj_fields cur)) = false ->
+    Forall wf_avp' here /\
+    exists cur', assign_go e f c cur here = Ok cur' /\ others_same (f_attr d) cur cur' /\
+      aval_equiv (obj_equiv e f) d (assoc (f_attr d) (obj_fields cur')) (Some (AVal v)).
+  Proof.
+    intros Hd Htc Hv Hgen Hcur. cbn [field_avps] in Hgen.
+    assert (Eb : String.eqb (f_tclass d) "" = true) by (rewrite Htc; reflexivity). rewrite Eb in Hgen.
+    apply bind_ok in Hgen as (a & Ha & Hgen). injection Hgen as <-.
+    destruct (scalar_avp_facts d v a Hd Htc Hv Ha) as (_ & _ & _ & Hwa).
+    split; [constructor; [exact Hwa|constructor]|].
+    exists (set_field cur (f_attr d) (AVal v)). cbn [assign_go].
+    rewrite (step_scalar_single d v a cur Hd Htc Hv Ha Hcur). cbn [bind].
+    split; [reflexivity|]. split; [apply set_field_others|].
+    rewrite set_field_same. reflexivity.
+  Qed.
+
+  Lemma single_group_rt d o' cur here :
+    In d (d_defs c) -> f_tclass d <> ""%string -> nested_ok e (shaped e f) d o' ->
+    field_avps e d (Some (AObj o')) = Ok here ->
+    is_list (assoc (f_attr d) (obj_fields cur)) = false ->
+    Forall wf_avp' here /\
+    exists cur', assign_go e f c cur here = Ok cur' /\ others_same (f_attr d) cur cur' /\
+      aval_equiv (obj_equiv e f) d (assoc (f_attr d) (obj_fields cur')) (Some (AObj o')).
+  Proof.
+    intros Hd Htc Hv Hgen Hcur. cbn [field_avps] in Hgen.
+    apply bind_ok in Hgen as (a & Ha & Hgen). injection Hgen as <-.
+    destruct (step_group_single d o' a cur Hd Htc Hv Ha Hcur) as (Hwa & o'' & Hstep & Heq).
+    split; [constructor; [exact Hwa|constructor]|].
+    exists (set_field cur (f_attr d) (AObj o'')). cbn [assign_go]. rewrite Hstep. cbn [bind].
+    split; [reflexivity|]. split; [apply set_field_others|].
+    rewrite set_field_same. cbn [aval_equiv]. exists o'. split; [reflexivity|exact Heq].
+  Qed.
+
+  Lemma field_roundtrip d av cur here :
+    In d (d_defs c) ->
+    field_shaped e (shaped e f) d (assoc (f_attr d) (d_init c)) av ->
+    field_avps e d av = Ok here ->
+    assoc (f_attr d) (obj_fields cur) = fresh_val c d ->
+    Forall wf_avp' here /\
+    exists cur', assign_go e f c cur here = Ok cur' /\ others_same (f_attr d) cur cur' /\
+      aval_equiv (obj_equiv e f) d (assoc (f_attr d) (obj_fields cur')) av.
+  Proof.
+    intros Hd Hsh Hgen Hcur. unfold fresh_val in Hcur.
+    destruct (assoc (f_attr d) (d_init c)) as [[|z|]|] eqn:Ei; cbn [field_shaped] in Hsh.
+    - (* preset to a list *)
+      cbn [init_aval] in Hcur.
+      destruct av as [[|v|vs|o'|os|k]|]; try contradiction.
+      + destruct Hsh as [Htc Hvs].
+        assert (Eb : String.eqb (f_tclass d) "" = true) by (rewrite Htc; reflexivity).
+        rewrite Eb in Hcur. cbn [field_avps] in Hgen. rewrite Eb in Hgen.
+        destruct (scalar_loop d Hd Htc vs cur [] here Hvs Hgen Hcur) as (Hw & cur' & Hgo & Hsame & Hval).
+        split; [exact Hw|]. exists cur'. split; [exact Hgo|]. split; [exact Hsame|].
+        rewrite Hval. cbn [List.app aval_equiv]. left. reflexivity.
+      + destruct Hsh as [[Htc ->]|[Htc Hos]].
+        * assert (Eb : String.eqb (f_tclass d) "" = true) by (rewrite Htc; reflexivity).
+          rewrite Eb in Hcur. cbn [field_avps map_result] in Hgen. injection Hgen as <-.
+          split; [constructor|]. exists cur. cbn [assign_go].
+          split; [reflexivity|]. split; [apply others_same_refl|].
+          rewrite Hcur. cbn [aval_equiv]. right. repeat split. exact Htc.
+        * assert (Eb : String.eqb (f_tclass d) "" = false) by (apply String.eqb_neq; exact Htc).
+          rewrite Eb in Hcur. cbn [field_avps] in Hgen.
+          destruct (group_loop d Hd Htc os cur [] here Hos Hgen Hcur)
+            as (Hw & cur' & os'' & Hgo & Hsame & Hval & Hall).
+          split; [exact Hw|]. exists cur'. split; [exact Hgo|]. split; [exact Hsame|].
+          rewrite Hval. cbn [List.app aval_equiv]. left. exists os. split; [reflexivity|exact Hall].
+    - (* preset to an integer *)
+      cbn [init_aval] in Hcur.
+      assert (Hnl : is_list (assoc (f_attr d) (obj_fields cur)) = false) by (rewrite Hcur; reflexivity).
+      destruct av as [[|v|vs|o'|os|k]|]; try contradiction; try discriminate.
+      + destruct Hsh as [Htc Hv]. apply single_scalar_rt; assumption.
+      + destruct Hsh as [Htc Hv]. apply single_group_rt; assumption.
+    - contradiction.
+    - (* not preset *)
+      assert (Hnl : is_list (assoc (f_attr d) (obj_fields cur)) = false) by (rewrite Hcur; reflexivity).
+      destruct av as [[|v|vs|o'|os|k]|]; try contradiction.
+      + cbn [field_avps] in Hgen. injection Hgen as <-. split; [constructor|]. exists cur. cbn [assign_go].
+        split; [reflexivity|]. split; [apply others_same_refl|]. rewrite Hcur. reflexivity.
+      + destruct Hsh as [Htc Hv]. apply single_scalar_rt; assumption.
+      + destruct Hsh as [Htc Hv]. apply single_group_rt; assumption.
+      + cbn [field_avps] in Hgen. injection Hgen as <-. split; [constructor|]. exists cur. cbn [assign_go].
+        split; [reflexivity|]. split; [apply others_same_refl|]. rewrite Hcur. reflexivity.
+  Qed.
+End Roundtrip.
+
+Section Roundtrip2.
+  Variable e : env.
+  Variable f : nat.
+  Variable c : clsdef.
+  Hypothesis Ht : e_time e = rfc_time.
+  Hypothesis Hwf : class_wf e c.
+  Hypothesis IHf : forall o' sub, shaped e f o' -> gen_obj e o' = Ok sub ->
+    Forall wf_avp' sub /\
+    exists o'', assign e f (fresh (e_classes e) (obj_cls o')) sub = Ok o'' /\ obj_equiv e f o'' o'.
+
+  (* ---- all definitions, in order ---- *)
+  Lemma defs_roundtrip fields : 
+    (forall d, In d (d_defs c) ->
+       field_shaped e (shaped e f) d (assoc (f_attr d) (d_init c)) (assoc (f_attr d) fields)) ->
+    forall ds cur ordered,
+    (forall d, In d ds -> In d (d_defs c)) ->
+    str_nodup (List.map f_attr ds) = true ->
+    gen_defs e fields ds = Ok ordered ->
+    (forall d, In d ds -> assoc (f_attr d) (obj_fields cur) = fresh_val c d) ->
+    Forall wf_avp' ordered /\
+    exists cur', assign_go e f c cur ordered = Ok cur' /\
+      obj_cls cur' = obj_cls cur /\ obj_extra cur' = obj_extra cur /\
+      (forall m, (forall d, In d ds -> f_attr d <> m) -> assoc m (obj_fields cur') = assoc m (obj_fields cur)) /\
+      (forall d, In d ds ->
+         aval_equiv (obj_equiv e f) d (assoc (f_attr d) (obj_fields cur')) (assoc (f_attr d) fields)).
+  Proof.
+    intros Hsh. induction ds as [|d r IH]; intros cur ordered Hincl Hnd Hgen Hfresh; cbn [gen_defs] in Hgen.
+    - injection Hgen as <-. split; [constructor|]. exists cur. cbn [assign_go].
+      split; [reflexivity|]. split; [reflexivity|]. split; [reflexivity|]. split; [reflexivity|].
+      intros d [].
+    - apply bind_ok in Hgen as (here & Hh & Hgen). apply bind_ok in Hgen as (more & Hm & Hgen).
+      injection Hgen as <-.
+      cbn [List.map] in Hnd. apply str_nodup_cons in Hnd as [Hnotin Hnd].
+      assert (Hd : In d (d_defs c)) by (apply Hincl; left; reflexivity).
+      destruct (field_roundtrip e f c Ht Hwf IHf d _ cur here Hd (Hsh d Hd) Hh (Hfresh d (or_introl eq_refl)))
+        as (Hwh & cur1 & Hgo1 & (Hc1 & Hx1 & Ho1) & Heq1).
+      assert (Hne : forall d', In d' r -> f_attr d' <> f_attr d).
+      { intros d' Hd' He. apply Hnotin. rewrite <- He. apply in_map. exact Hd'. }
+      destruct (IH cur1 more (fun d' Hd' => Hincl d' (or_intror Hd')) Hnd Hm) as (Hwm & cur2 & Hgo2 & Hc2 & Hx2 & Ho2 & Heq2).
+      { intros d' Hd'. rewrite (Ho1 _ (Hne d' Hd')). apply Hfresh. right. exact Hd'. }
+      split; [apply Forall_app; split; assumption|].
+      exists cur2. rewrite assign_go_app, Hgo1. cbn [bind].
+      split; [exact Hgo2|]. split; [congruence|]. split; [congruence|]. split.
+      + intros m Hm'. rewrite Ho2 by (intros d' Hd'; apply Hm'; right; exact Hd').
+        apply Ho1. intros He. apply (Hm' d (or_introl eq_refl)). symmetry. exact He.
+      + intros d' [<-|Hd'].
+        * rewrite Ho2 by exact Hne. exact Heq1.
+        * apply Heq2. exact Hd'.
+  Qed.
+
+  (* ---- the extras ---- *)
+  Lemma extras_roundtrip ex : forall cur,
+    Forall (fun a => wf_avp' a /\ def_for_key (d_defs c) (a_code a) (a_vendor a) = None) ex ->
+    assign_go e f c cur ex =
+    Ok (if d_extra c then Obj (obj_cls cur) (obj_fields cur) (obj_extra cur ++ ex)%list else cur).
+  Proof.
+    induction ex as [|a r IH]; intros cur Hex.
+    - cbn [assign_go]. rewrite app_nil_r. destruct cur; destruct (d_extra c); reflexivity.
+    - inversion Hex as [|? ? [_ Hk] Hr]; subst. cbn [assign_go]. unfold assign_step at 1. rewrite Hk. cbn [bind].
+      rewrite (IH _ Hr). destruct (d_extra c); [|reflexivity].
+      destruct cur as [cl fs x]. cbn [add_extra obj_cls obj_fields obj_extra]. rewrite <- app_assoc. reflexivity.
+  Qed.
+End Roundtrip2.
+
+(* the statement proved by induction on the fuel: what gen_obj produced is encodable, and assigning it
+   to a fresh instance WITH THE SAME FUEL gives an equivalent object *)
+Lemma roundtrip_fuel e : e_time e = rfc_time -> forall fuel o l,
+  shaped e fuel o -> gen_obj e o = Ok l ->
+  Forall wf_avp' l /\
+  exists o', assign e fuel (fresh (e_classes e) (obj_cls o)) l = Ok o' /\ obj_equiv e fuel o' o.
+Proof.
+  intros Ht. induction fuel as [|f IHf]; intros o l Hsh Hgen; [destruct Hsh|].
+  destruct o as [cls fields extra]. cbn [shaped obj_cls obj_extra obj_fields] in Hsh.
+  destruct (cdef_lookup (e_classes e) cls) as [c|] eqn:Hc; [|destruct Hsh].
+  destruct Hsh as (Hdefs & Hwf & Hnoex & Hex & Hfields).
+  rewrite (gen_obj_unfold e cls fields extra c Hc Hdefs) in Hgen.
+  apply bind_ok in Hgen as (ordered & Hord & Hgen). injection Hgen as <-.
+  assert (Hl : (if has_extras c then (ordered ++ extra)%list else ordered) = (ordered ++ extra)%list).
+  { unfold has_extras. destruct (d_is_msg c); [reflexivity|]. destruct (d_extra c); [reflexivity|].
+    rewrite (Hnoex eq_refl). rewrite app_nil_r. reflexivity. }
+  rewrite Hl. clear Hl.
+  pose proof Hwf as [Hok _]. apply class_ok_inv in Hok as (_ & Hattrs & _).
+  destruct (defs_roundtrip e f c Ht Hwf IHf fields Hfields (d_defs c) (fresh (e_classes e) cls) ordered
+              (fun d Hd => Hd) Hattrs Hord) as (Hwo & cur' & Hgo & Hcls & Hx & _ & Heq).
+  { intros d Hd. apply (fresh_assoc_def _ _ c d Hc Hattrs Hd). }
+  split.
+  { apply Forall_app. split; [exact Hwo|]. eapply Forall_impl; [|exact Hex]. cbv beta. tauto. }
+  cbn [obj_cls]. rewrite assign_S, fresh_cls, Hc, Hdefs. cbn [negb].
+  rewrite assign_go_app, Hgo. cbn [bind]. rewrite (extras_roundtrip e f c extra cur' Hex).
+  rewrite fresh_cls in Hcls. rewrite fresh_extra in Hx.
+  eexists. split; [reflexivity|].
+  cbn [obj_equiv]. destruct (d_extra c) eqn:Ex.
+  - cbn [obj_cls obj_extra obj_fields]. rewrite Hcls, Hx, Hc. cbn [List.app].
+    split; [reflexivity|]. split; [reflexivity|]. exact Heq.
+  - cbn [obj_cls obj_extra obj_fields]. rewrite Hcls, Hx, Hc, (Hnoex eq_refl).
+    split; [reflexivity|]. split; [reflexivity|]. exact Heq.
+Qed.
+
+(* (3)  DEVIATIONS from the requested statement, all strengthening it:
+   - no `tables_ok e` hypothesis: `shaped` itself carries class_wf (class_ok + 32-bit codes) for the
+     class of the object and of every nested object, i.e. exactly for the classes involved.  (The
+     generated tables do NOT satisfy class_ok for every class -- Link/LinkDefs.defs_tables_wf_refuted --
+     so a global hypothesis would make the theorem vacuous on them.)
+   - instead of "exists fuel'": EVERY fuel' >= fuel works, and the equivalence holds at fuel'.
+   - `shaped` does not ask that field names be declared or distinct: gen_obj, assign and obj_equiv
+     only ever read fields through `assoc` on declared attributes (first binding wins). *)
+Theorem C03_roundtrip : forall e fuel o l, e_time e = rfc_time ->
+  shaped e fuel o -> gen_obj e o = Ok l ->
+  forall fuel', (fuel <= fuel')%nat ->
+  exists o', assign e fuel' (fresh (e_classes e) (obj_cls o)) l = Ok o' /\ obj_equiv e fuel' o' o.
+Proof.
+  intros e fuel o l Ht Hsh Hgen fuel' Hle.
+  apply (roundtrip_fuel e Ht fuel' o l (shaped_mono e fuel fuel' o Hle Hsh) Hgen).
+Qed.
+
+(* what gen_obj produces for a shaped object can be put on the wire *)
+Theorem C03_gen_encodable : forall e fuel o l, e_time e = rfc_time ->
+  shaped e fuel o -> gen_obj e o = Ok l -> Forall wf_avp' l /\ exists bs, enc_avps l = Ok bs.
+Proof.
+  intros e fuel o l Ht Hsh Hgen. destruct (roundtrip_fuel e Ht fuel o l Hsh Hgen) as [Hw _].
+  split; [exact Hw|apply enc_avps_ok; exact Hw].
+Qed.
+
+(* ---- gen_obj respects the equivalence ---- *)
+Lemma map_result_Forall2 {A B} (g : A -> result B) xs ys :
+  Forall2 (fun x y => g x = g y) xs ys -> map_result g xs = map_result g ys.
+Proof. intros H. induction H as [|x y xs ys Hxy _ IH]; [reflexivity|]. cbn [map_result]. rewrite Hxy, IH. reflexivity. Qed.
+
+Lemma field_avps_equiv e (oe : obj -> obj -> Prop) d a b :
+  (forall x y, oe x y -> gen_obj e x = gen_obj e y) ->
+  aval_equiv oe d a b -> field_avps e d a = field_avps e d b.
+Proof.
+  intros Hoe. unfold aval_equiv.
+  assert (Hu : unset b = true -> field_avps e d b = Ok []).
+  { destruct b as [[| | | | |]|]; cbn [unset]; intros; try discriminate; reflexivity. }
+  destruct a as [[|v|vs|x|xs|k]|].
+  - intros H. rewrite (Hu H). reflexivity.
+  - intros ->. reflexivity.
+  - intros [->|(-> & -> & Htc)]; [reflexivity|]. cbn [field_avps map_result]. rewrite Htc. reflexivity.
+  - intros (y & -> & Hxy). cbn [field_avps]. unfold grouped_item. rewrite (Hoe x y Hxy). reflexivity.
+  - intros [(ys & -> & Hall)|(-> & -> & Htc)].
+    + cbn [field_avps]. apply map_result_Forall2. eapply Forall2_imp; [|exact Hall].
+      intros x y Hxy. unfold grouped_item. rewrite (Hoe x y Hxy). reflexivity.
+    + cbn [field_avps map_result]. rewrite Htc. reflexivity.
+  - intros ->. reflexivity.
+  - intros H. rewrite (Hu H). reflexivity.
+Qed.
+
+Theorem gen_obj_equiv : forall e fuel a b, obj_equiv e fuel a b -> gen_obj e a = gen_obj e b.
+Proof.
+  intros e. induction fuel as [|f IH]; intros a b H; [destruct H|].
+  destruct a as [c1 f1 x1], b as [c2 f2 x2]. cbn [obj_equiv obj_cls obj_extra obj_fields] in H.
+  destruct H as (<- & <- & H). rewrite !gen_obj_unfold_gen.
+  destruct (cdef_lookup (e_classes e) c1) as [c|]; [|reflexivity].
+  destruct (d_has_defs c); [|reflexivity].
+  assert (HE : forall ds, (forall d, In d ds -> In d (d_defs c)) -> gen_defs e f1 ds = gen_defs e f2 ds).
+  { induction ds as [|d r IHd]; intros Hincl; [reflexivity|]. cbn [gen_defs].
+    rewrite (field_avps_equiv e (obj_equiv e f) d _ _ IH (H d (Hincl d (or_introl eq_refl)))).
+    rewrite IHd; [reflexivity|]. intros d' Hd'. apply Hincl. right. exact Hd'. }
+  rewrite (HE (d_defs c) (fun d Hd => Hd)). reflexivity.
+Qed.
+
+(* (4) encode - decode - encode = encode *)
+Theorem C03_ede : forall e fuel o l, e_time e = rfc_time ->
+  shaped e fuel o -> gen_obj e o = Ok l ->
+  forall fuel', (fuel <= fuel')%nat ->
+  exists o', assign e fuel' (fresh (e_classes e) (obj_cls o)) l = Ok o' /\ gen_obj e o' = Ok l.
+Proof.
+  intros e fuel o l Ht Hsh Hgen fuel' Hle.
+  destruct (C03_roundtrip e fuel o l Ht Hsh Hgen fuel' Hle) as (o' & Has & Heq).
+  exists o'. split; [exact Has|]. rewrite (gen_obj_equiv e fuel' o' o Heq). exact Hgen.
+Qed.
+
+(* (5b) shaped e fuel o bounds the nesting depth of o by fuel; from there on assign never runs
+   out of fuel (nor hits the two "outside the model" branches, which also answer OutOfFuel) *)
+Theorem C03_assign_total : forall e fuel o l, e_time e = rfc_time ->
+  shaped e fuel o -> gen_obj e o = Ok l ->
+  forall fuel', (fuel <= fuel')%nat ->
+  assign e fuel' (fresh (e_classes e) (obj_cls o)) l <> Err OutOfFuel.
+Proof.
+  intros e fuel o l Ht Hsh Hgen fuel' Hle.
+  destruct (C03_roundtrip e fuel o l Ht Hsh Hgen fuel' Hle) as (o' & Has & _).
+  rewrite Has. discriminate.
+Qed.
+
+(* ---- gen_obj succeeds on every shaped object ("setting any subset of attributes to valid
+   values produces ...") ---- *)
+Lemma map_result_total {A B} (g : A -> result B) (P : A -> Prop) l :
+  (forall x, P x -> exists y, g x = Ok y) -> Forall P l -> exists ys, map_result g l = Ok ys.
+Proof.
+  intros Hg H. induction H as [|x r Hx _ [ys IH]]; [exists []; reflexivity|].
+  destruct (Hg x Hx) as [y Hy]. exists (y :: ys). cbn [map_result]. rewrite Hy, IH. reflexivity.
+Qed.
+
+Lemma new_for_total e d v r :
+  lookup (e_rows e) (f_code d) (f_vendor d) = Some r ->
+  match v with Some x => exists p, enc_val (e_time e) (row_ty r) x = Ok p | None => True end ->
+  exists a, new_for e d v = Ok a.
+Proof.
+  intros Hl Hv. unfold new_for, avp_new. rewrite Hl. destruct v as [x|].
+  - destruct Hv as [p Hp]. rewrite Hp. cbn [bind]. eexists. reflexivity.
+  - cbn [bind]. eexists. reflexivity.
+Qed.
+
+Section GenTotal.
+  Variable e : env.
+  Variable f : nat.
+  Variable c : clsdef.
+  Hypothesis Ht : e_time e = rfc_time.
+  Hypothesis Hwf : class_wf e c.
+  Hypothesis IHf : forall o', shaped e f o' -> exists sub, gen_obj e o' = Ok sub.
+
+  Lemma scalar_total d v : In d (d_defs c) -> f_tclass d = ""%string -> scalar_ok e d v ->
+    exists a, new_for e d (Some v) = Ok a.
+  Proof.
+    intros Hd Htc (r & Hl & Hdom & _).
+    destruct (def_ok_inv _ _ d (c_def e c Hwf d Hd)) as (r' & Hl' & Hng & _).
+    rewrite Hl in Hl'. injection Hl' as <-.
+    destruct (val_roundtrip (row_ty r) v (Hng Htc) Hdom) as (p & He & _).
+    apply (new_for_total e d (Some v) r Hl). exists p. rewrite Ht. exact He.
+  Qed.
+
+  Lemma nested_total d o' : In d (d_defs c) -> f_tclass d <> ""%string -> nested_ok e (shaped e f) d o' ->
+    exists a, grouped_item e d o' = Ok a.
+  Proof.
+    intros Hd Htc (_ & Hsh & _).
+    destruct (IHf o' Hsh) as [sub Hsub].
+    destruct (roundtrip_fuel e Ht f o' sub Hsh Hsub) as [Hw _].
+    destruct (enc_avps_ok sub Hw) as [p Hp].
+    destruct (def_ok_inv _ _ d (c_def e c Hwf d Hd)) as (r & Hl & _ & Hg).
+    destruct (Hg Htc) as [Hty _].
+    destruct (new_for_total e d None r Hl I) as [a0 Ha0].
+    assert (Eb : String.eqb (f_tclass d) "" = false) by (apply String.eqb_neq; exact Htc).
+    unfold grouped_item. rewrite Hsub. cbn [bind]. rewrite Eb.
+    unfold grouped_for. rewrite Ha0. cbn [bind]. rewrite Hl, Hty, Hp. eexists. reflexivity.
+  Qed.
+
+  Lemma field_avps_total d i av : In d (d_defs c) -> field_shaped e (shaped e f) d i av ->
+    exists here, field_avps e d av = Ok here.
+  Proof.
+    intros Hd Hsh. unfold field_shaped in Hsh.
+    assert (Hs : forall v, f_tclass d = ""%string /\ scalar_ok e d v -> exists here, field_avps e d (Some (AVal v)) = Ok here).
+    { intros v [Htc Hv]. destruct (scalar_total d v Hd Htc Hv) as [a Ha]. exists [a].
+      cbn [field_avps]. rewrite Htc, Ha. reflexivity. }
+    assert (Hn : forall o', f_tclass d <> ""%string /\ nested_ok e (shaped e f) d o' -> exists here, field_avps e d (Some (AObj o')) = Ok here).
+    { intros o' [Htc Hv]. destruct (nested_total d o' Hd Htc Hv) as [a Ha]. exists [a].
+      cbn [field_avps]. rewrite Ha. reflexivity. }
+    destruct i as [[|z|]|]; destruct av as [[|v|vs|o'|os|k]|]; try contradiction;
+      try (exists []; reflexivity); try (apply Hs; exact Hsh); try (apply Hn; exact Hsh).
+    - destruct Hsh as [Htc Hvs]. cbn [field_avps]. rewrite Htc.
+      apply (map_result_total _ (scalar_ok e d)); [|exact Hvs]. intros v Hv. apply scalar_total; assumption.
+    - destruct Hsh as [[_ ->]|[Htc Hos]]; [exists []; reflexivity|]. cbn [field_avps].
+      apply (map_result_total _ (nested_ok e (shaped e f) d)); [|exact Hos]. intros o' Ho'. apply nested_total; assumption.
+  Qed.
+End GenTotal.
+
+Theorem C03_gen_total : forall e fuel o, e_time e = rfc_time -> shaped e fuel o ->
+  exists l, gen_obj e o = Ok l.
+Proof.
+  intros e fuel o Ht. revert o. induction fuel as [|f IHf]; intros o Hsh; [destruct Hsh|].
+  destruct o as [cls fields extra]. cbn [shaped obj_cls obj_extra obj_fields] in Hsh.
+  destruct (cdef_lookup (e_classes e) cls) as [c|] eqn:Hc; [|destruct Hsh].
+  destruct Hsh as (Hdefs & Hwf & _ & _ & Hfields).
+  rewrite (gen_obj_unfold e cls fields extra c Hc Hdefs).
+  assert (HE : forall ds, (forall d, In d ds -> In d (d_defs c)) -> exists ordered, gen_defs e fields ds = Ok ordered).
+  { induction ds as [|d r IHd]; intros Hincl; [exists []; reflexivity|].
+    assert (Hd : In d (d_defs c)) by (apply Hincl; left; reflexivity).
+    destruct (field_avps_total e f c Ht Hwf IHf d _ _ Hd (Hfields d Hd)) as [here Hh].
+    destruct (IHd (fun d' Hd' => Hincl d' (or_intror Hd'))) as [more Hm].
+    exists (here ++ more)%list. cbn [gen_defs]. rewrite Hh, Hm. reflexivity. }
+  destruct (HE (d_defs c) (fun d Hd => Hd)) as [ordered Ho]. rewrite Ho. cbn [bind]. eexists. reflexivity.
+Qed.
+
+(* ---- the remaining clauses of C03, spelled out ---- *)
+(* every declared attribute denotes exactly one dictionary AVP, and no two attributes of a class
+   denote the same AVP (nor share a name) *)
+Theorem C03_attr_denotes : forall e c d, class_wf e c -> In d (d_defs c) ->
+  (exists r, lookup (e_rows e) (f_code d) (f_vendor d) = Some r /\
+             row_code r = f_code d /\ row_vendor r = f_vendor d /\
+             (row_ty r = TGrouped <-> f_tclass d <> ""%string)) /\
+  (forall d', In d' (d_defs c) ->
+     f_attr d' = f_attr d \/ (f_code d' = f_code d /\ f_vendor d' = f_vendor d) -> d' = d).
+Proof.
+  intros e c d [Hok _] Hd. apply class_ok_inv in Hok as (Hdef & Hattrs & Hkeys). split.
+  - destruct (def_ok_inv _ _ d (Hdef d Hd)) as (r & Hl & Hs & Hg). exists r. split; [exact Hl|].
+    pose proof Hl as Hf. unfold lookup in Hf. apply find_some in Hf as [_ Hf].
+    apply andb_true_iff in Hf as [H1 H2]. apply Z.eqb_eq in H1. apply Z.eqb_eq in H2.
+    split; [exact H1|]. split; [exact H2|]. split.
+    + intros Hty Htc. exact (Hs Htc Hty).
+    + intros Htc. apply Hg. exact Htc.
+  - intros d' Hd' [Ha|[Hc Hv]].
+    + apply (attr_unique (d_defs c) d' d Hattrs Hd' Hd Ha).
+    + apply (key_unique (d_defs c) d' d Hkeys Hd' Hd). unfold dkey. congruence.
+Qed.
+
+(* "decoding restores every attribute value that was set", read off obj_equiv: a scalar that was
+   set comes back as that scalar, a non-empty list as that list, an object as an equivalent object,
+   and what was unset stays unset *)
+Lemma aval_equiv_inv oe d a b : aval_equiv oe d a b ->
+  match b with
+  | None | Some ANone => unset a = true
+  | Some (AVal v) => a = Some (AVal v)
+  | Some (AVals vs) => vs <> [] -> a = Some (AVals vs)
+  | Some (AObj x) => exists x', a = Some (AObj x') /\ oe x' x
+  | Some (AObjs xs) => xs <> [] -> exists xs', a = Some (AObjs xs') /\ Forall2 oe xs' xs
+  | Some (AClass k) => a = Some (AClass k)
+  end.
+Proof.
+  unfold aval_equiv. destruct a as [[|v'|vs'|x'|xs'|k']|].
+  - destruct b as [[| | | | |]|]; cbn [unset]; intros H; try discriminate; reflexivity.
+  - intros ->. reflexivity.
+  - intros [->|(-> & -> & _)]; [intros _; reflexivity|]. intros Hne. exfalso. apply Hne. reflexivity.
+  - intros (y & -> & Hxy). exists x'. split; [reflexivity|exact Hxy].
+  - intros [(y & -> & Hall)|(-> & -> & _)].
+    + intros _. exists xs'. split; [reflexivity|exact Hall].
+    + intros Hne. exfalso. apply Hne. reflexivity.
+  - intros ->. reflexivity.
+  - destruct b as [[| | | | |]|]; cbn [unset]; intros H; try discriminate; reflexivity.
+Qed.
+
+Theorem C03_restores : forall e fuel o' o c d, obj_equiv e (S fuel) o' o ->
+  cdef_lookup (e_classes e) (obj_cls o) = Some c -> In d (d_defs c) ->
+  match assoc (f_attr d) (obj_fields o) with
+  | None | Some ANone => unset (assoc (f_attr d) (obj_fields o')) = true
+  | Some (AVal v) => assoc (f_attr d) (obj_fields o') = Some (AVal v)
+  | Some (AVals vs) => vs <> [] -> assoc (f_attr d) (obj_fields o') = Some (AVals vs)
+  | Some (AObj x) => exists x', assoc (f_attr d) (obj_fields o') = Some (AObj x') /\ obj_equiv e fuel x' x
+  | Some (AObjs xs) => xs <> [] -> exists xs', assoc (f_attr d) (obj_fields o') = Some (AObjs xs') /\
+                                               Forall2 (obj_equiv e fuel) xs' xs
+  | Some (AClass k) => assoc (f_attr d) (obj_fields o') = Some (AClass k)
+  end.
+Proof.
+  intros e fuel o' o c d H Hc Hd. cbn [obj_equiv] in H. destruct H as (Hcls & _ & H).
+  rewrite Hcls, Hc in H. apply (aval_equiv_inv _ d _ _ (H d Hd)).
+Qed.
+
+(* obj_equiv is symmetric (so "equivalent" is meant in both directions) *)
+Lemma Forall2_sym {A} (P : A -> A -> Prop) l1 l2 :
+  (forall x y, P x y -> P y x) -> Forall2 P l1 l2 -> Forall2 P l2 l1.
+Proof. intros H F. induction F; constructor; auto. Qed.
+
+Lemma aval_equiv_sym (oe : obj -> obj -> Prop) d a b :
+  (forall x y, oe x y -> oe y x) -> aval_equiv oe d a b -> aval_equiv oe d b a.
+Proof.
+  intros Hs. unfold aval_equiv. destruct a as [[|v|vs|x|xs|k]|].
+  - destruct b as [[| | | | |]|]; cbn [unset]; intros H; try discriminate; reflexivity.
+  - intros ->. reflexivity.
+  - intros [->|(-> & -> & Htc)]; [left; reflexivity|right; repeat split; exact Htc].
+  - intros (y & -> & Hxy). exists x. split; [reflexivity|apply Hs; exact Hxy].
+  - intros [(y & -> & Hall)|(-> & -> & Htc)].
+    + left. exists xs. split; [reflexivity|apply Forall2_sym; assumption].
+    + right. repeat split; exact Htc.
+  - intros ->. reflexivity.
+  - destruct b as [[| | | | |]|]; cbn [unset]; intros H; try discriminate; reflexivity.
+Qed.
+
+Theorem obj_equiv_sym : forall e fuel a b, obj_equiv e fuel a b -> obj_equiv e fuel b a.
+Proof.
+  intros e. induction fuel as [|f IH]; intros a b H; [destruct H|].
+  cbn [obj_equiv] in *. destruct H as (Hc & Hx & H).
+  split; [symmetry; exact Hc|]. split; [symmetry; exact Hx|]. rewrite <- Hc.
+  destruct (cdef_lookup (e_classes e) (obj_cls a)) as [c|]; [|symmetry; exact H].
+  intros d Hd. apply aval_equiv_sym; [exact IH|apply H; exact Hd].
+Qed.
+
+(* ====================================================================== *)
+(* 7. a concrete instance (the hypotheses are satisfiable)                 *)
+(* ====================================================================== *)
+Definition ex_rows : list drow :=
+  [(1001, 0, TUns32, 2, 0, "Test-Num"%string);
+   (1002, 0, TUtf8, 0, 0, "Test-Text"%string);
+   (1003, 10415, TGrouped, 2, 0, "Test-Group"%string);
+   (1004, 10415, TInt32, 1, 0, "Test-Inner"%string)].
+
+Definition ex_msg : clsdef :=
+  {| d_name := "TestMsg"%string; d_is_msg := true; d_has_defs := true; d_extra := true;
+     d_defs := [("num"%string, 1001, 0, true, 0, ""%string);
+                ("texts"%string, 1002, 0, false, 1, ""%string);
+                ("grp"%string, 1003, 10415, false, 0, "TestGroup"%string)];
+     d_init := [("texts"%string, InitList)] |}.
+Definition ex_grp : clsdef :=
+  {| d_name := "TestGroup"%string; d_is_msg := false; d_has_defs := true; d_extra := false;
+     d_defs := [("inner"%string, 1004, 10415, true, 0, ""%string)];
+     d_init := [] |}.
+Definition ex_env : env := {| e_rows := ex_rows; e_time := rfc_time; e_classes := [ex_msg; ex_grp] |}.
+
+Definition ex_extra : avp := {| a_code := 9999; a_flags := 0; a_vendor := 0; a_payload := [1; 2; 3] |}.
+Definition ex_inner : obj := Obj "TestGroup" [("inner"%string, AVal (VInt (-5)))] [].
+Definition ex_obj : obj :=
+  Obj "TestMsg" [("texts"%string, AVals [VText [104; 105]; VText [233]]);
+                 ("grp"%string, AObj ex_inner);
+                 ("num"%string, AVal (VInt 7))] [ex_extra].
+
+Definition scalar_okb (e : env) (d : defrow) (v : value) : bool :=
+  match lookup (e_rows e) (f_code d) (f_vendor d) with
+  | Some r => in_domain (row_ty r) v &&
+              match enc_val (e_time e) (row_ty r) v with Ok p => 12 + blen p <? 16777216 | Err _ => true end
+  | None => false
+  end.
+Lemma scalar_okb_ok e d v : scalar_okb e d v = true -> scalar_ok e d v.
+Proof.
+  unfold scalar_okb, scalar_ok. destruct (lookup (e_rows e) (f_code d) (f_vendor d)) as [r|]; [|discriminate].
+  intros H. apply andb_true_iff in H as [Hd Hb]. exists r. split; [reflexivity|]. split; [exact Hd|].
+  intros p Hp. rewrite Hp in Hb. apply Z.ltb_lt. exact Hb.
+Qed.
+
+Lemma ex_msg_wf : class_wf ex_env ex_msg.
+Proof. split; [vm_compute; reflexivity|]. cbn [d_defs ex_msg]. repeat constructor; vm_compute; congruence. Qed.
+Lemma ex_grp_wf : class_wf ex_env ex_grp.
+Proof. split; [vm_compute; reflexivity|]. cbn [d_defs ex_grp]. repeat constructor; vm_compute; congruence. Qed.
+
+Example ex_inner_shaped : shaped ex_env 1 ex_inner.
+Proof.
+  cbn [shaped]. change (cdef_lookup (e_classes ex_env) (obj_cls ex_inner)) with (Some ex_grp).
+  split; [reflexivity|]. split; [exact ex_grp_wf|]. split; [reflexivity|]. split; [constructor|].
+  intros d [<-|[]].
+  change (field_shaped ex_env (shaped ex_env 0) ("inner"%string, 1004, 10415, true, 0, ""%string) None (Some (AVal (VInt (-5))))).
+  cbn [field_shaped]. split; [reflexivity|].
+  apply scalar_okb_ok; vm_compute; reflexivity.
+Qed.
+
+Example ex_shaped : shaped ex_env 2 ex_obj.
+Proof.
+  cbn [shaped]. change (cdef_lookup (e_classes ex_env) (obj_cls ex_obj)) with (Some ex_msg).
+  split; [reflexivity|]. split; [exact ex_msg_wf|]. split; [discriminate|]. split.
+  { constructor; [|constructor]. split; [|vm_compute; reflexivity].
+    unfold wf_avp'. vm_compute. repeat split; try congruence. repeat constructor; congruence. }
+  intros d [<-|[<-|[<-|[]]]].
+  - change (field_shaped ex_env (shaped ex_env 1) ("num"%string, 1001, 0, true, 0, ""%string) None (Some (AVal (VInt 7)))).
+    cbn [field_shaped]. split; [reflexivity|]. apply scalar_okb_ok; vm_compute; reflexivity.
+  - change (field_shaped ex_env (shaped ex_env 1) ("texts"%string, 1002, 0, false, 1, ""%string) (Some InitList)
+              (Some (AVals [VText [104; 105]; VText [233]]))).
+    cbn [field_shaped]. split; [reflexivity|].
+    repeat constructor; apply scalar_okb_ok; vm_compute; reflexivity.
+  - change (field_shaped ex_env (shaped ex_env 1) ("grp"%string, 1003, 10415, false, 0, "TestGroup"%string) None
+              (Some (AObj ex_inner))).
+    cbn [field_shaped]. split; [discriminate|]. split; [reflexivity|]. split; [exact ex_inner_shaped|].
+    intros sub p H1 H2. vm_compute in H1. injection H1 as <-. vm_compute in H2. injection H2 as <-.
+    vm_compute. reflexivity.
+Qed.
+
+Definition ex_avps : list avp :=
+  [{| a_code := 1001; a_flags := 64; a_vendor := 0; a_payload := [0; 0; 0; 7] |};
+   {| a_code := 1002; a_flags := 0; a_vendor := 0; a_payload := [104; 105] |};
+   {| a_code := 1002; a_flags := 0; a_vendor := 0; a_payload := [195; 169] |};
+   {| a_code := 1003; a_flags := 192; a_vendor := 10415;
+      a_payload := [0; 0; 3; 236; 128; 0; 0; 16; 0; 0; 40; 175; 255; 255; 255; 251] |};
+   ex_extra].
+
+(* definition order (num, texts, grp), not field order; M from the dictionary (1001, 1003) or
+   cleared by the definition's override (1002); V with the vendor id; the extra AVP last *)
+Example ex_gen : gen_obj ex_env ex_obj = Ok ex_avps.
+Proof. vm_compute. reflexivity. Qed.
+
+(* the decoded object: same attributes, in the order they were assigned *)
+Example ex_assign :
+  assign ex_env 2 (fresh (e_classes ex_env) "TestMsg") ex_avps =
+  Ok (Obj "TestMsg" [("texts"%string, AVals [VText [104; 105]; VText [233]]);
+                     ("num"%string, AVal (VInt 7));
+                     ("grp"%string, AObj ex_inner)] [ex_extra]).
+Proof. vm_compute. reflexivity. Qed.
+
+(* one level of fuel less than the nesting depth is not enough *)
+Example ex_assign_fuel : assign ex_env 1 (fresh (e_classes ex_env) "TestMsg") ex_avps = Err OutOfFuel.
+Proof. vm_compute. reflexivity. Qed.
+
+(* the theorems, instantiated *)
+Example ex_roundtrip :
+  exists o', assign ex_env 2 (fresh (e_classes ex_env) "TestMsg") ex_avps = Ok o' /\
+             obj_equiv ex_env 2 o' ex_obj /\ gen_obj ex_env o' = Ok ex_avps.
+Proof.
+  destruct (C03_roundtrip ex_env 2 ex_obj ex_avps eq_refl ex_shaped ex_gen 2 (le_n 2)) as (o' & Ha & He).
+  exists o'. split; [exact Ha|]. split; [exact He|].
+  rewrite (gen_obj_equiv ex_env 2 o' ex_obj He). exact ex_gen.
+Qed.
+
+Print Assumptions gen_obj_unfold_gen.
+Print Assumptions gen_obj_unfold.
+Print Assumptions C03_gen_shape.
+Print Assumptions gen_obj_errors.
+Print Assumptions shaped_mono.
+Print Assumptions C03_roundtrip.
+Print Assumptions C03_gen_encodable.
+Print Assumptions C03_gen_total.
+Print Assumptions gen_obj_equiv.
+Print Assumptions C03_ede.
+Print Assumptions C03_assign_total.
+Print Assumptions C03_attr_denotes.
+Print Assumptions C03_restores.
+Print Assumptions obj_equiv_sym.
+Print Assumptions ex_shaped.
+Print Assumptions ex_gen.
+Print Assumptions ex_assign.
+Print Assumptions ex_roundtrip.
